@@ -871,6 +871,9 @@ fn free_case(seed: u64, big: bool) -> (String, String, bool) {
     let res = rt.block_on(async {
         let (gate, agent) = Gate::new(cap);
         let gate = Arc::new(gate);
+        // a unit's status reporter, its per-connection tasks and the manager's link report all hold the gate's metrics
+        // handle and can outlive the gate: hold it across the termination, as they do
+        let metrics_held = gate.metrics();
         let g2 = gate.clone();
         let root_task = tokio::spawn(async move { loop { if g2.process().await.is_err() { break; } } });
         let (done_tx, done_rx) = tokio::sync::watch::channel(false);
@@ -1005,6 +1008,7 @@ fn free_case(seed: u64, big: bool) -> (String, String, bool) {
                 dl.disconnect().await;
             }
         }
+        drop(metrics_held);
         Ok(term_fail)
     });
     match res { Ok(tf) => fails.extend(tf), Err(e) => fails.push(e) }
